@@ -342,9 +342,23 @@ struct VecAdapter {
         for (size_t i = 0; i < x.size(); ++i) {
           unsigned ev0 = G.opAllocCalls + G.opReallocCalls; uint64_t inpl0 = G.reallocInPlace; size_t sz0 = (size_t)v.size();
           g_reallocExpect.known = true; g_reallocExpect.n = 1; g_reallocExpect.sizes[0] = sz0;
-          if (i % 3 == 0) { T t = ElemIO<T>::make(x[i]); Arm a; v.push_back(std::move(t)); }
-          else if (i % 3 == 1) { Arm a; ElemIO<T>::emplace_back(v, x[i]); }
-          else { T t = ElemIO<T>::make(x[i]); Arm a; v.push_back(t); }
+          unsigned how = op.variant % 8 == 0 ? (unsigned)(i % 3) : op.variant % 8 + 2;  // one method per loop, or the push/emplace mix
+          switch (how) {
+            case 0: { T t = ElemIO<T>::make(x[i]); Arm a; v.push_back(std::move(t)); } break;
+            case 1: { Arm a; ElemIO<T>::emplace_back(v, x[i]); } break;
+            case 2: { T t = ElemIO<T>::make(x[i]); Arm a; v.push_back(t); } break;
+            case 3: { Arm a; v.resize((S)(sz0 + 1)); } break;                                       // value-initialised element
+            case 4: { T t = ElemIO<T>::make(x[i]); Arm a; v.resize((S)(sz0 + 1), t); } break;
+            case 5: { T t = ElemIO<T>::make(x[i]); Arm a; v.insert(v.end(), t); } break;
+            case 6: { Arm a; ElemIO<T>::emplace(v, v.end(), x[i]); } break;
+            case 7: { T t = ElemIO<T>::make(x[i]); Arm a; v.insert(v.end(), (S)1, t); } break;
+#ifdef AMC_NONSTD_FEATURES
+            case 8: { T t = ElemIO<T>::make(x[i]); Arm a; v.append((S)1, t); } break;
+            default: { T t = ElemIO<T>::make(x[i]); const T *b = &t; Arm a; v.append(b, b + 1); } break;
+#else
+            default: { T t = ElemIO<T>::make(x[i]); Arm a; v.push_back(t); } break;
+#endif
+          }
           if (G.opAllocCalls + G.opReallocCalls != ev0) {
             ++res.growEvents;
             if (G.reallocInPlace == inpl0) res.relocs += sz0;
